@@ -1,21 +1,12 @@
-"""Per-property configuration of ./check. What exists, not what is planned."""
+"""Per-property configuration of ./check: one file checklib/p_<id>.py per claimed property,
+each defining PROP (check configuration) and META (MANIFEST text). What exists, not what is planned."""
+import glob, importlib, os, sys
 
-KERNEL = "Lean 4.33.0 kernel; axioms propext, Classical.choice, Quot.sound only (audited per theorem on every run)"
-CORR = "hand-written Lean model tied to /repo by differential execution (harness built from the working tree, -tags verif) on seeded generators + boundary corpus"
-
-PROPS = {
-    "C11": dict(
-        level="proof",
-        generators=["C11"],
-        trusted_base=[
-            KERNEL, CORR,
-            "Spec/FlvSpec.lean is the reading of Adobe FLV v10.1 Annex E used as 'conforming parser'; Spec/WsSpec.lean the reading of RFC 6455 §5.2",
-            "harness recConn (records each net.Conn.Write as one queue item); naza connection's asynchronous writer delivers items in order",
-            "Generated/Consts.lean (flvHeader) is printed by the harness from the httpflv package it was built against",
-        ],
-        modelled=["httpflv.PackHttpflvTag", "httpflv.ReadTag/parseTagHeader", "Tag.Payload", "FlvFileWriter.WriteFlvHeader/WriteTag", "FlvFileReader.ReadFlvHeader/ReadTag",
-                  "base.MakeWsFrameHeader", "BasicHttpSubSession.Write (plain and WebSocket)", "httpflv.FlvHeader"],
-        not_modelled=["HTTP response header text", "base.ReadWsPayload (client-to-server frames; belongs to C13)"],
-        assumptions=["payload length < 2^24 and timestamp < 2^32 (Go types / RTMP message length limit)", "tag type < 32 for the specification reader (lal only packs 8, 9, 18)"],
-    ),
-}
+_here = os.path.dirname(os.path.abspath(__file__))
+PROPS, META = {}, {}
+for _f in sorted(glob.glob(os.path.join(_here, "p_C*.py"))):
+    _name = os.path.basename(_f)[:-3]
+    _m = importlib.import_module(_name)
+    _pid = _name[2:]
+    PROPS[_pid] = _m.PROP
+    META[_pid] = _m.META
